@@ -40,6 +40,7 @@ STATES = [
     "auto-commit-in-flight",
     "commit-in-backoff",
     "idle-after-processing",
+    "commit-in-flight-while-processing",
 ]
 
 REQUIRED_LABELS = [
@@ -101,6 +102,8 @@ def jobs(tier):
             for cfg in ("nogroup", "n1", "ms"):
                 if cfg == "nogroup" and "commit" in state:
                     continue
+                if state == "commit-in-flight-while-processing" and cfg == "ms":
+                    pass
                 if state == "auto-commit-in-flight" and cfg == "nogroup":
                     continue
                 out.append({"state": state, "action": action, "cfg": cfg, "K": 6 if q else 8})
@@ -240,6 +243,16 @@ def scenario(job):
                 # timer-triggered auto commit
                 while pending("commit") is None and next_timer(w.clock) is not None:
                     fire_next_timer(w.clock)
+        elif state == "commit-in-flight-while-processing":
+            # two blocks of one message each: the first is processed and its (count- or manually triggered) commit is still in
+            # flight while the second is being processed
+            w.client.resolve(pending("fetch"), block(2) if cfg == "n1" else block(1))
+            proc_ok()
+            if cfg != "n1":
+                w.mc = []
+                c.commit().addBoth(w.mc.append)
+                fire_next_timer(w.clock)
+                w.client.resolve(pending("fetch"), block(1))
         elif state == "commit-in-backoff":
             w.client.resolve(pending("fetch"), block(1))
             proc_ok()
